@@ -128,3 +128,39 @@ Definition FromQuery (names : list bytes) (nid : N) (q : query) : res iquery :=
       ROk {| iq_ns := q_ns q; iq_obj := option_map (uuid5 nid) (q_obj q); iq_rel := q_rel q; iq_sub := None |}
     end
   end.
+
+(* ---- Mapper.ToTree (uuid_mapping.go:351): the subject of every node is looked up on its own
+   (one MapUUIDsToStrings call per node, after the children), a subject set's namespace must be known ---- *)
+Inductive itree := INode (ty : N) (s : option isub) (cs : list itree).
+Inductive asub := ASid (s : bytes) | ASet (n o r : bytes).
+Inductive atree := ANode (ty : N) (s : option asub) (cs : list atree).
+
+Definition node_ids (s : option isub) : list uid :=
+  match s with Some (ISid u) => [u] | Some (ISet _ o _) => [o] | None => [] end.
+
+Fixpoint ToTree (names : list bytes) (d : db) (t : itree) {struct t} : res atree :=
+  match t with
+  | INode ty s cs =>
+    match (match s with
+           | Some (ISet n _ _) => if ns_known names n then ROk tt else RErr E_NotFound
+           | _ => ROk tt end) with
+    | RErr e => RErr e
+    | ROk _ =>
+      match (fix go (cs : list itree) : res (list atree) :=
+               match cs with
+               | [] => ROk []
+               | c :: r => match ToTree names d c with
+                           | RErr e => RErr e
+                           | ROk c' => match go r with RErr e => RErr e | ROk r' => ROk (c' :: r') end
+                           end
+               end) cs with
+      | RErr e => RErr e
+      | ROk cs' =>
+        let strs := MapUUIDsToStrings (node_ids s) d in
+        ROk (ANode ty (match s with
+                       | Some (ISid _) => Some (ASid (nth 0 strs []))
+                       | Some (ISet n _ r) => Some (ASet n (nth 0 strs []) r)
+                       | None => None end) cs')
+      end
+    end
+  end.
